@@ -38,3 +38,7 @@ Theorem C14_ristretto_encode_injective : forall (K : Kernel) d1 d2 P,
   r_encode K d1 = Ok P -> r_encode K d2 = Ok P -> d1 = d2.
 Proof. exact r_encode_injective. Qed.
 Print Assumptions C14_ristretto_encode_injective.
+
+(* non-vacuity: encode succeeds on a concrete 30-byte plaintext *)
+Example C14_ristretto_nonvacuous : exists P, r_encode K_ref (repeat 0 30) = Ok P.
+Proof. eexists. vm_compute. reflexivity. Qed.
